@@ -109,7 +109,9 @@ impl<'a> Reduced<'a> {
 
 impl ReducedWord {
     pub const fn one(ring: &ConstSingleDivisor) -> Self {
-        Self(1 << ring.shift())
+        let one = 1 << ring.shift();
+        // the residue of 1 modulo 1 is 0
+        Self(if one == ring.normalized_divisor() { 0 } else { one })
     }
 
     #[inline]
